@@ -7,8 +7,8 @@ CONSTANTS
   FeatureSets <- SomeFeatures
   Sheets <- OneSheet
   CollectAllText = TRUE
-  ExpandRowRepeats = FALSE
-  DescendsIntoRowContainers = TRUE
+  ExpandRowRepeats = TRUE
+  DescendsIntoRowContainers = FALSE
   ReadsCoveredCells = TRUE
 INVARIANT TypeOK
 INVARIANT ReadsTheLogicalTable
